@@ -313,6 +313,9 @@ const MaxMutantSize = 30 * 1024
 // and a short description of what was done; applied is false when the operator has no
 // applicable item in this encoding (the input is returned unchanged).
 func MutateCBOR(valid []byte, op MutOp) (out []byte, what string, applied bool) {
+	if len(valid) > 1<<20 {
+		return valid, "", false // an earlier operator of the case already produced a huge input
+	}
 	root, err := ParseCBOR(valid)
 	if err != nil {
 		return valid, "unparsable-original", false
